@@ -18,7 +18,7 @@ LEVEL_NOTE = (
 TECHNIQUE = "property-based testing: differential check of the package evaluator vs an independent recount over all valid mappings of random inputs"
 DESIGN_REF = "DESIGN.md section 5 (C06), 4.1"
 RULE = (
-    "Hypothesis cases: binary input (<=5/<=5 leaves), <=4 families (consistent leaf orders), free costs in {0..5} with hgt possibly infinite, one "
+    "Local exhaustive layer (see exhaustive_layer) + Hypothesis cases: binary input (<=5/<=5 leaves), <=4 families (consistent leaf orders), free costs in {0..5} with hgt possibly infinite, one "
     "random valid ordered labelling and one random valid unordered labelling (top-down construction).  For every valid species mapping of the "
     "input (all of them up to 1500, else an evenly spaced deterministic subset): node_event of every node, cost() of the plain output, "
     "reconciliation_cost(), labeling_cost(), cost() of the ordered and unordered labelled outputs == independent recount; the same output objects evaluated again after every unit cost was changed in place must give the recount under the new costs, and one output object per kind whose species mapping is updated in place through up to 24 of the valid mappings must evaluate to the recount of its current content after each update.  One case in 8 also "
@@ -35,6 +35,72 @@ def strategy(tier):
     return gen.labelled_reconciliation_case(max_obj=5, max_sp=5, max_fam=4, costs="free", maxcost=5)
 
 
+EXHAUSTIVE_RULE = {
+    "quick": "local layer: object tree ((x,y)n,z)r with z carrying all of 4 families; for each event of n (speciation, duplication at its species, "
+             "duplication above it, transfer with the left / the right child transferred) every triple (synteny of n, of x, of y) with x and y "
+             "non-empty subsequences of n's - 479 triples - evaluated as ordered and as unordered labelling under two cost vectors",
+    "thorough": "the same with 5 families (2 671 triples per event)",
+}
+EXHAUSTIVE_COMPLETE = False  # the random layer is not exhaustive
+LOCAL_EVENTS = {
+    # name: (species of x, of y, of n) on the species tree ((SA,SB)S1,SC)S0; z is in SC except where n needs the whole tree
+    "speciation": ("SA", "SB", "S1"),
+    "duplication": ("SA", "SA", "SA"),
+    "duplication-above": ("SA", "SA", "S1"),
+    "transfer-right": ("SA", "SC", "SA"),
+    "transfer-left": ("SC", "SA", "SA"),
+}
+
+
+def exhaustive(tier):
+    return [("local", ev, 4 if tier == "quick" else 5) for ev in LOCAL_EVENTS]
+
+
+def run_job(job):
+    _, ev, nf = job
+    yield {"_kind": "local", "event": ev, "families": nf}
+
+
+def check_local(case):
+    import itertools
+
+    from superrec2.model.reconciliation import SuperReconciliationOutput
+
+    nf = case["families"]
+    fams = [f"g{i}" for i in range(nf)]
+    sx, sy, sn = LOCAL_EVENTS[case["event"]]
+    evals = 0
+    for costs in ({"SPECIATION": 0, "DUPLICATION": 1, "HORIZONTAL_TRANSFER": 1, "FULL_LOSS": 1, "SEGMENTAL_LOSS": 1},
+                  {"SPECIATION": 2, "DUPLICATION": 3, "HORIZONTAL_TRANSFER": 5, "FULL_LOSS": 7, "SEGMENTAL_LOSS": 11}):
+        base = {
+            "object_tree": f"(({sx}_0,{sy}_1)N,SC_2)R;", "species_tree": "((SA,SB)S1,SC)S0;",
+            "leaf_object_species": {f"{sx}_0": sx, f"{sy}_1": sy, "SC_2": "SC"}, "costs": costs,
+        }
+        x, y = f"{sx}_0", f"{sy}_1"
+        m = {x: sx, y: sy, "SC_2": "SC", "N": sn, "R": "S0"}
+        for mask_n in range(1, 1 << nf):
+            syn_n = [f for i, f in enumerate(fams) if mask_n >> i & 1]
+            subs = [[f for i, f in enumerate(syn_n) if mk >> i & 1] for mk in range(1, 1 << len(syn_n))]
+            for syn_x, syn_y in itertools.product(subs, repeat=2):
+                full = dict(base, leaf_syntenies={x: syn_x, y: syn_y, "SC_2": fams})
+                inst = Instance(full)
+                lab = {x: syn_x, y: syn_y, "SC_2": fams, "N": syn_n, "R": fams}
+                inp = pkg.make_input(full, labelled=True)
+                onode = {n.name: n for n in inp.object_tree.traverse()}
+                snode = {n.name: n for n in inp.species_lca.tree.traverse()}
+                mo = {onode[k]: snode[v] for k, v in m.items()}
+                for ordered in (True, False):
+                    syn = {onode[k]: (list(v) if ordered else set(v)) for k, v in lab.items()}
+                    out = pkg.guarded(SuperReconciliationOutput, input=inp, object_species=mo, syntenies=syn, ordered=ordered)
+                    rc, lc, tot = total_cost(inst, m, lab, ordered=ordered)
+                    got = (pkg.guarded(out.reconciliation_cost), pkg.guarded(out.labeling_cost), pkg.guarded(out.cost))
+                    evals += 1
+                    if got != (rc, lc, tot):
+                        raise Violation(f"eval.local.{'ordered' if ordered else 'unordered'}.{case['event']}", observed=list(got), expected=[rc, lc, tot],
+                                        extra={"node": syn_n, "left": syn_x, "right": syn_y, "costs": costs})
+    return Result(True, ["local", case["event"]], evals=evals)
+
+
 def _event_name(inst, m, n):
     if not inst.ochildren[n]:
         return "LEAF"
@@ -43,6 +109,8 @@ def _event_name(inst, m, n):
 
 
 def check(case):
+    if case.get("_kind") == "local":
+        return check_local(case)
     from superrec2.model.reconciliation import ReconciliationOutput, SuperReconciliationOutput
 
     inst = Instance(case)
@@ -159,6 +227,10 @@ def _cli_clause(case):
 
     n = 0
     base = {k: v for k, v in case.items() if not k.startswith("_")}
+    # unit costs are arbitrary non-negative numbers: every other case is priced with the vector scaled by a large odd
+    # factor, so that the printed total needs seven and more significant digits
+    if int(case_hash(case), 16) % 2 == 0:
+        base["costs"] = {k: (v if v == INF else v * 1234567) for k, v in base["costs"].items()}
     for algo, mode in (("thl", "plain"), ("ext_spfs", "ordered"), ("superdtl", "unordered")):
         for policy in ("any", "all"):
             status, lines, printed, err, _raw = stubs.cli_reconcile(base, algo, policy)
